@@ -34,7 +34,7 @@ BANNERS = ("No errors in input", "Resolution successful", "Finished writing file
 NOATTR_CFG = {"min_attrs": 0, "max_attrs": 0, "p_derived": 0, "p_inverse": 0, "p_redecl": 0, "p_unique": 0, "p_where": 0, "max_ent": 7, "max_typ": 5}
 F9_SIG = "exp2python-crash-strdup"
 TIMEOUT = 300      # wall-clock guard per tool run: hitting it without using CPU_LIMIT seconds of CPU is "inconclusive", never a verdict
-CPU_LIMIT = 20     # CPU seconds (generated inputs take milliseconds); a hit is re-run three times before it counts
+CPU_LIMIT = 12     # CPU seconds (generated inputs take milliseconds); a hit is re-run three times before it counts
 
 
 def agg_rep_expr(text):
@@ -96,7 +96,7 @@ def run_all(table, sc, text, tools, exppp_o, tag):
         ds2, _ = F.parse_stderr(table, r.out, p)
         errs = [x for x in ds + ds2 if x.tag == "ERROR"]
         both = r.out + "\n" + r.err
-        res[t] = {"status": r.status, "rc": r.rc, "sig": r.sig, "timeout": r.timeout, "cpu_exceeded": r.cpu_exceeded, "errors": len(errs),
+        res[t] = {"status": r.status, "rc": r.rc, "sig": r.sig, "timeout": r.timeout, "cpu_exceeded": r.cpu_exceeded, "flood": r.flood, "errors": len(errs),
                   "warnings": len([x for x in ds if x.tag == "WARNING"]),
                   "codes": sorted(set(x.num for x in errs)), "banners": [b for b in BANNERS if b in both], "files": len(os.listdir(d)),
                   "err": r.err[-600:], "out": r.out[-300:]}
@@ -114,7 +114,9 @@ def judge(case, res, table):
     for t, r in res.items():
         label = "%s: %s, %d ERROR diagnostics" % (t, r["status"], r["errors"])
         if r["timeout"]:
-            if r["cpu_exceeded"]:
+            if r.get("flood"):
+                probs.append(("unbounded-output:" + t, "%s printed more than %d MB on a generated input" % (t, F.OUTPUT_CAP >> 20), t))
+            elif r["cpu_exceeded"]:
                 probs.append(("no-termination:" + t, "%s used more than %d s of CPU on a generated input without ending" % (t, CPU_LIMIT), t))
             else:
                 probs.append(("inconclusive-wall-timeout", label, t))
@@ -180,6 +182,24 @@ def f9_probe():
         sc.close()
 
 
+def _nt_flagdir():
+    return os.path.join(common.WORK, "run", "c04_nt_flags")
+
+
+def _nt_count(tool, cls):
+    try:
+        return len([f for f in os.listdir(_nt_flagdir()) if f.startswith("%s|%s|" % (tool, cls))])
+    except OSError:
+        return 0
+
+
+def _nt_flag(tool, cls, idx, k):
+    try:
+        open(os.path.join(_nt_flagdir(), "%s|%s|%d_%d" % (tool, cls, idx, k)), "w").close()
+    except OSError:
+        pass
+
+
 def work_base(arg):
     idx, src, tier, seed, f9_known, f9_present = arg
     table = F.ErrTable()
@@ -209,9 +229,9 @@ def work_base(arg):
                     if m is None or m["text"] in seen:
                         continue
                     seen.add(m["text"])
-                    # only classes whose LibErrors entry is an error are asserted as "rejected"
-                    if all(table.is_error(table.codes[e["code"]]) for e in m["expect"]):
-                        cases.append(Case("listed", m["text"], m["listed"], "%s/%s" % (m["flavour"], m["decl"]), tname, m["expect"]))
+                    # every class the statement lists is asserted as "rejected" (all of them are SEVERITY_ERROR/EXIT in LibErrors[] on
+                    # the calibrated tree; the severity is deliberately NOT read from the tree under test)
+                    cases.append(Case("listed", m["text"], m["listed"], "%s/%s" % (m["flavour"], m["decl"]), tname, m["expect"]))
             for j in range(3 if tier == "quick" else 8):
                 m = M.syntax_mutant(base, "%s|%d" % (src["rseed"], j), sc=bscan)
                 if m is not None:
@@ -227,7 +247,16 @@ def work_base(arg):
                 tools.remove("exp2python")
                 ev.exclude("exp2python not run on a valid schema with an entity attribute (finding %s), except probes" % F9_SIG)
             exppp_o = rnd.random() < 0.5
+            for t in list(tools):
+                # a tool already seen (4 times, by any worker) to spin on this fault class is not run on it again: every such
+                # run costs CPU_LIMIT seconds and adds nothing to the verdict
+                if _nt_count(t, str(case.cls).replace("/", "_")) >= 4:
+                    tools.remove(t)
+                    ev.exclude("%s not run on class '%s': already shown 4x not to terminate in this run" % (t, case.cls))
             res = run_all(table, sc, case.text, tools, exppp_o, "c%d_%d" % (idx, k))
+            for t, r in res.items():
+                if r["timeout"] and r["cpu_exceeded"]:
+                    _nt_flag(t, str(case.cls).replace("/", "_"), idx, k)
             classes = ["kind:" + case.kind, "origin:" + src["origin"]]
             if case.cls:
                 classes.append("class:" + case.cls)
@@ -285,7 +314,7 @@ def main(tier, seed):
     f9_known = findings.match(PROP, F9_SIG) is not None
     f9_present = f9_probe()
     ev.extra["finding_F9_present_in_tree"] = f9_present
-    n = 400 if tier == "quick" else 1800
+    n = 450 if tier == "quick" else 1800
     avoid = sorted(shape for base_sig, (shape, _p) in SHAPES.items() if findings.match(PROP, base_sig + ":" + shape))
     srcs = M.sources(common.sub_seed(seed, PROP, "schemas"), n, {"expgen": {"max_ent": 8, "max_typ": 6}, "explang": {"avoid": set(avoid)}})
     if avoid:
@@ -312,6 +341,8 @@ def main(tier, seed):
                         continue
                 keep.append(s_)
             srcs = keep
+    shutil.rmtree(_nt_flagdir(), ignore_errors=True)
+    os.makedirs(_nt_flagdir(), exist_ok=True)
     results = common.pmap(common.guarded(work_base), [(i, s, tier, seed, f9_known, f9_present) for i, s in enumerate(srcs)])
     rc = 0
     fails = []
